@@ -178,11 +178,16 @@ def _orientation(e, source):
     t = core.src(e)
     if t == source:
         return "as-is"
+    if isinstance(e, ast.UnaryOp) and isinstance(e.op, (ast.USub, ast.UAdd)):
+        return _orientation(e.operand, source)
     if isinstance(e, ast.Call) and core.src(e.func) in ("np.array", "np.asarray", "list") and e.args:
         return _orientation(e.args[0], source)
     if isinstance(e, ast.ListComp) and len(e.generators) == 1 and isinstance(e.generators[0].target, ast.Name) and _orientation(e.generators[0].iter, source) == "as-is":
         v = e.generators[0].target.id
-        el = core.src(e.elt)
+        elt = e.elt
+        while isinstance(elt, ast.UnaryOp) and isinstance(elt.op, (ast.USub, ast.UAdd)):
+            elt = elt.operand
+        el = core.src(elt)
         if el == v:
             return "as-is"
         if el in (f"{v}.T", f"np.transpose({v})", f"{v}.transpose()"):
